@@ -54,7 +54,7 @@ package driver
 //@   props C13
 //@   arith int
 //@   requires d != nil && commit != nil && commit.Value != nil
-//@   assigns dirty, calls_Flush, calls_DeleteWALEntries, calls_OnCommit, arg_DeleteWALEntries_height, smHeight
+//@   assigns dirty, calls_Flush, calls_DeleteWALEntries, calls_OnCommit, arg_DeleteWALEntries_height
 //@   callsite DeleteWALEntries@*: after_decision_delivered: calls_OnCommit == old(calls_OnCommit) + 1 && height == commit.Height
 //@   callsite Flush@*: after_prune: calls_DeleteWALEntries == old(calls_DeleteWALEntries) + 1
 //@   ensures durable: result == nil ==> !dirty && calls_OnCommit == old(calls_OnCommit) + 1 && calls_DeleteWALEntries == old(calls_DeleteWALEntries) + 1 && calls_Flush == old(calls_Flush) + 1
